@@ -2,6 +2,7 @@ package kv
 
 import (
 	"fmt"
+	"k8s.io/apimachinery/pkg/types"
 	"sort"
 
 	appsv1 "k8s.io/api/apps/v1"
@@ -29,6 +30,8 @@ type Obj struct {
 	// ingress: default backend service name and rule path backends
 	Default string
 	Paths   []string
+	// UID is set on the built object and never reported to the model: nothing in the library may depend on it
+	UID string
 }
 
 // SrcSx encodes a join source object (service, workload or ingress) for the model.
@@ -55,7 +58,7 @@ func (o Obj) meta() metav1.ObjectMeta {
 			labels[k] = v
 		}
 	}
-	return metav1.ObjectMeta{Namespace: o.NS, Name: o.Name, ResourceVersion: o.RV, Labels: labels}
+	return metav1.ObjectMeta{Namespace: o.NS, Name: o.Name, ResourceVersion: o.RV, Labels: labels, UID: types.UID(o.UID)}
 }
 
 // Build makes the real API object.
